@@ -213,49 +213,220 @@ Section Decision.
   Qed.
 
   (* ---------------- the TLS caller ---------------- *)
-  Lemma tls_accept_sound x spki expected p :
-    tls_accept on_curve verify x spki expected = Accept p ->
-    exists kb sg k,
-      x = TlsExt kb sg /\ decode_pubkey kb = KeyOk k /\
+  Notation tls_scan := (tls_scan on_curve).
+  Notation tls_verify := (tls_verify on_curve verify).
+  Notation tls_accept := (tls_accept on_curve verify).
+
+  (* once an extension was found, the rest of the list may only hold ignorable extensions *)
+  Lemma tls_scan_found f l r :
+    tls_scan (Some f) l = ScanOk r -> r = Some f /\ Forall ignorable l.
+  Proof.
+    induction l as [|x l IH]; cbn [Model.tls_scan].
+    - intros [= <-]. auto.
+    - destruct x as [c|[|]]; try discriminate.
+      intros E. destruct (IH E) as [-> F]. split; [reflexivity|]. constructor; [reflexivity|exact F].
+  Qed.
+
+  Lemma tls_scan_found_complete f l : Forall ignorable l -> tls_scan (Some f) l = ScanOk (Some f).
+  Proof.
+    induction 1 as [|x l I F IH]; cbn [Model.tls_scan]; [reflexivity|]. rewrite I. exact IH.
+  Qed.
+
+  (* the scan succeeds with (k, sg) exactly on: ignorable*, one libp2p extension that decodes to
+     (kb, sg) with kb admitted as k, ignorable* *)
+  Lemma tls_scan_ok l k sg :
+    tls_scan None l = ScanOk (Some (k, sg)) ->
+    exists l1 kb l2,
+      l = l1 ++ XP2p (Some (kb, sg)) :: l2 /\ Forall ignorable l1 /\ Forall ignorable l2 /\
+      decode_pubkey kb = KeyOk k.
+  Proof.
+    induction l as [|x l IH]; cbn [Model.tls_scan]; [discriminate|].
+    destruct x as [[[kb sg']|]|[|]]; try discriminate.
+    - destruct (decode_pubkey kb) as [k'|e] eqn:DK; [|discriminate].
+      intros E. destruct (tls_scan_found _ _ _ E) as [[= -> ->] F].
+      exists [], kb, l. repeat split; auto.
+    - intros E. destruct (IH E) as (l1 & kb & l2 & -> & F1 & F2 & DK).
+      exists (XOther false :: l1), kb, l2. repeat split; auto. constructor; [reflexivity|exact F1].
+  Qed.
+
+  Lemma tls_scan_ok_complete l1 kb sg l2 k :
+    Forall ignorable l1 -> Forall ignorable l2 -> decode_pubkey kb = KeyOk k ->
+    tls_scan None (l1 ++ XP2p (Some (kb, sg)) :: l2) = ScanOk (Some (k, sg)).
+  Proof.
+    intros F1 F2 DK. induction F1 as [|x l I F IH]; cbn [app Model.tls_scan].
+    - rewrite DK. apply tls_scan_found_complete. exact F2.
+    - rewrite I. exact IH.
+  Qed.
+
+  Lemma tls_accept_sound l spki expected p :
+    tls_accept l spki expected = Accept p ->
+    exists l1 kb sg l2 k,
+      l = l1 ++ XP2p (Some (kb, sg)) :: l2 /\ Forall ignorable l1 /\ Forall ignorable l2 /\
+      decode_pubkey kb = KeyOk k /\
       verify k (TLS_PREFIX ++ spki) sg = true /\
       p = peer_id_of_key k /\ (expected = None \/ expected = Some p).
   Proof.
-    unfold tls_accept. intros A. apply check_dialed_accept in A as [A D].
-    destruct x as [| | |kb sg]; cbn [tls_verify] in A; try discriminate.
-    destruct (decode_pubkey kb) as [k|e] eqn:DK; [|discriminate].
+    unfold Model.tls_accept. intros A. apply check_dialed_accept in A as [A D].
+    unfold Model.tls_verify in A.
+    destruct (tls_scan None l) as [e|[[k sg]|]] eqn:S; try discriminate.
     destruct (verify k (TLS_PREFIX ++ spki) sg) eqn:V; [|discriminate].
-    injection A as <-. exists kb, sg, k. auto.
+    injection A as <-.
+    destruct (tls_scan_ok _ _ _ S) as (l1 & kb & l2 & E & F1 & F2 & DK).
+    exists l1, kb, sg, l2, k. repeat split; auto.
   Qed.
 
-  Lemma tls_accept_complete kb sg k spki expected :
+  Lemma tls_accept_complete l1 kb sg l2 k spki expected :
+    Forall ignorable l1 -> Forall ignorable l2 ->
     decode_pubkey kb = KeyOk k -> verify k (TLS_PREFIX ++ spki) sg = true ->
     (expected = None \/ expected = Some (peer_id_of_key k)) ->
-    tls_accept on_curve verify (TlsExt kb sg) spki expected = Accept (peer_id_of_key k).
+    tls_accept (l1 ++ XP2p (Some (kb, sg)) :: l2) spki expected = Accept (peer_id_of_key k).
   Proof.
-    intros DK V D. unfold tls_accept. cbn [tls_verify]. rewrite DK, V.
+    intros F1 F2 DK V D. unfold Model.tls_accept, Model.tls_verify.
+    rewrite (tls_scan_ok_complete l1 kb sg l2 k F1 F2 DK), V.
     destruct D as [-> | ->]; cbn [check_dialed]; [reflexivity|]. rewrite pid_eqb_refl. reflexivity.
   Qed.
 
-  Lemma tls_reject_mismatch x spki p q :
-    tls_verify on_curve verify x spki = Accept p -> q <> p ->
-    tls_accept on_curve verify x spki (Some q) = Reject EMismatch.
+  Lemma tls_reject_mismatch l spki p q :
+    tls_verify l spki = Accept p -> q <> p ->
+    tls_accept l spki (Some q) = Reject EMismatch.
   Proof.
-    intros A N. unfold tls_accept. rewrite A. cbn [check_dialed]. rewrite (pid_eqb_neq _ _ N). reflexivity.
+    intros A N. unfold Model.tls_accept. rewrite A. cbn [check_dialed]. rewrite (pid_eqb_neq _ _ N). reflexivity.
+  Qed.
+
+  (* a critical extension that is not libp2p's, anywhere in the certificate: never accepted *)
+  Lemma tls_critical_refused l spki expected p :
+    In (XOther true) l -> tls_accept l spki expected <> Accept p.
+  Proof.
+    intros I A. apply tls_accept_sound in A as (l1 & kb & sg & l2 & k & -> & F1 & F2 & _).
+    apply in_app_or in I as [I|[I|I]]; try discriminate.
+    - rewrite Forall_forall in F1. specialize (F1 _ I). discriminate.
+    - rewrite Forall_forall in F2. specialize (F2 _ I). discriminate.
+  Qed.
+
+  (* two extensions with the libp2p OID, whatever they hold: never accepted *)
+  Lemma tls_duplicate_refused la c1 lb c2 lc spki expected p :
+    tls_accept (la ++ XP2p c1 :: lb ++ XP2p c2 :: lc) spki expected <> Accept p.
+  Proof.
+    intros A. apply tls_accept_sound in A as (l1 & kb & sg & l2 & k & E & F1 & F2 & _).
+    assert (C : forall c l, Forall ignorable l -> ~ In (XP2p c) l).
+    { intros c l F I. rewrite Forall_forall in F. specialize (F _ I). discriminate. }
+    assert (I1 : In (XP2p c1) (l1 ++ XP2p (Some (kb, sg)) :: l2)).
+    { rewrite <- E. apply in_or_app. right. left. reflexivity. }
+    assert (I2 : In (XP2p c2) (l1 ++ XP2p (Some (kb, sg)) :: l2)).
+    { rewrite <- E. apply in_or_app. right. right. apply in_or_app. right. left. reflexivity. }
+    (* both occurrences must be the one admitted extension: count the libp2p extensions *)
+    assert (Cnt : forall l, Forall ignorable l -> length (filter (fun x => match x with XP2p _ => true | _ => false end) l) = 0%nat).
+    { intros l F. induction F as [|x l I F IH]; [reflexivity|]. rewrite I. cbn. exact IH. }
+    pose (isp := fun x => match x with XP2p _ => true | XOther _ => false end).
+    assert (L : length (filter isp (la ++ XP2p c1 :: lb ++ XP2p c2 :: lc)) =
+                length (filter isp (l1 ++ XP2p (Some (kb, sg)) :: l2))) by (rewrite E; reflexivity).
+    rewrite !filter_app in L. cbn [filter isp] in L. rewrite !filter_app in L. cbn [filter isp] in L.
+    rewrite !app_length in L. cbn [length] in L. rewrite !app_length in L. cbn [length] in L.
+    fold isp in Cnt. rewrite (Cnt l1 F1), (Cnt l2 F2) in L. lia.
+  Qed.
+
+  (* key types: whatever carries a key blob whose Type field is not Ed25519 (RSA = 0 with the cargo
+     feature `rsa` off, Secp256k1 = 2, ECDSA = 3, anything else) is never accepted, on either path *)
+  Lemma non_ed25519_never_accepted kb m :
+    decode_keymsg kb = Some m -> k_type m <> 1 ->
+    (forall pb pl rs d p, decode_payload pb = Some pl -> p_key pl = Some kb -> accept pb rs d <> Accept p) /\
+    (forall l sg spki e p, In (XP2p (Some (kb, sg))) l -> tls_accept l spki e <> Accept p).
+  Proof.
+    intros M T. split.
+    - intros pb pl rs d p P K A. rewrite (reject_unknown_key_type pb rs d pl kb m P K M T) in A. discriminate.
+    - intros l sg spki e p I A.
+      apply tls_accept_sound in A as (l1 & kb' & sg' & l2 & k & -> & F1 & F2 & DK & _).
+      assert (E : kb' = kb).
+      { apply in_app_or in I as [I|[I|I]].
+        - rewrite Forall_forall in F1. specialize (F1 _ I). discriminate.
+        - injection I as -> _. reflexivity.
+        - rewrite Forall_forall in F2. specialize (F2 _ I). discriminate. }
+      subst kb'. destruct (decode_pubkey_ok _ _ DK) as (m' & M' & T' & _). congruence.
   Qed.
 
   (* an extension made for one certificate key is refused in a certificate with another key *)
   Lemma tls_binding :
     (forall pk m m' sg, verify pk m sg = true -> verify pk m' sg = true -> m = m') ->
-    forall x spki spki' e' p',
-      tls_accept on_curve verify x spki' e' = Accept p' -> spki <> spki' ->
-      forall e, tls_accept on_curve verify x spki e = Reject ETlsIssuer.
+    forall l spki spki' e' p',
+      tls_accept l spki' e' = Accept p' -> spki <> spki' ->
+      forall e, tls_accept l spki e = Reject ETlsIssuer.
   Proof.
-    intros SM x spki spki' e' p' A N e.
-    apply tls_accept_sound in A as (kb & sg & k & -> & DK & V & _ & _).
-    unfold tls_accept. cbn [tls_verify]. rewrite DK.
+    intros SM l spki spki' e' p' A N e.
+    apply tls_accept_sound in A as (l1 & kb & sg & l2 & k & -> & F1 & F2 & DK & V & _ & _).
+    unfold Model.tls_accept, Model.tls_verify. rewrite (tls_scan_ok_complete l1 kb sg l2 k F1 F2 DK).
     destruct (verify k (TLS_PREFIX ++ spki) sg) eqn:V2.
     - pose proof (SM _ _ _ _ V V2) as E. apply app_inv_head in E. congruence.
     - destruct e; reflexivity.
+  Qed.
+
+  (* ---------------- every caller, and the manager behind them ---------------- *)
+  Notation authentic := (authentic on_curve verify).
+
+  Lemma transport_verdict_sound t e ev p :
+    transport_verdict on_curve verify t e ev = Some (Accept p) ->
+    authentic ev p /\ (t = TWebRtc \/ e = None \/ e = Some p).
+  Proof.
+    destruct t, ev as [pb rs|l spki]; cbn [transport_verdict]; try discriminate; intros [= A].
+    - apply accept_sound in A as (pl & kb & sg & k & A). split; [exists pl, kb, sg, k; tauto|tauto].
+    - apply accept_sound in A as (pl & kb & sg & k & A). split; [exists pl, kb, sg, k; tauto|tauto].
+    - apply tls_accept_sound in A as (l1 & kb & sg & l2 & k & A). split; [exists l1, kb, sg, l2, k; tauto|tauto].
+    - apply accept_sound in A as (pl & kb & sg & k & A). split; [exists pl, kb, sg, k; tauto|auto].
+  Qed.
+
+  (* every dial, on every transport: an accepted connection is to the dialed peer and rests on
+     authentic evidence — by the transport's comparison or, failing that, by the manager's *)
+  Lemma every_dial_checked t addr_peer dialed ev p :
+    dial_outcome on_curve verify t addr_peer dialed ev = Some (Accept p) ->
+    p = dialed /\ authentic ev p.
+  Proof.
+    unfold dial_outcome. destruct (dial_setup t addr_peer) as [|e]; [discriminate|].
+    destruct (transport_verdict on_curve verify t e ev) as [r|] eqn:TV; [|discriminate].
+    cbn [omap]. intros [= M]. unfold manager_check in M.
+    apply check_dialed_accept in M as [-> [D|D]]; [discriminate|]. injection D as ->.
+    split; [reflexivity|]. exact (proj1 (transport_verdict_sound _ _ _ _ TV)).
+  Qed.
+
+  (* when the address handed to the transport names the dialed peer (the manager only dials such
+     addresses) the transport's own comparison already decides: the manager's changes nothing *)
+  Lemma transport_check_suffices t dialed ev :
+    t <> TWebRtc ->
+    dial_outcome on_curve verify t (Some dialed) dialed ev =
+    transport_verdict on_curve verify t (Some dialed) ev.
+  Proof.
+    intros NW. unfold dial_outcome.
+    assert (S : dial_setup t (Some dialed) = DialWith (Some dialed)) by (destruct t; try reflexivity; contradiction).
+    rewrite S. destruct (transport_verdict on_curve verify t (Some dialed) ev) as [[p|e]|] eqn:TV; cbn [omap]; try reflexivity.
+    - destruct (transport_verdict_sound _ _ _ _ TV) as [_ [W|[W|W]]]; try contradiction; try discriminate.
+      injection W as <-. unfold manager_check. cbn [check_dialed]. rewrite pid_eqb_refl. reflexivity.
+  Qed.
+
+  (* TCP dialed through an address WITHOUT /p2p: the transport compares nothing, the manager does *)
+  Lemma tcp_without_p2p_caught_by_manager pb rs p dialed :
+    verify_identity pb rs = Accept p -> dialed <> p ->
+    transport_verdict on_curve verify TTcp None (EvNoise pb rs) = Some (Accept p) /\
+    dial_outcome on_curve verify TTcp None dialed (EvNoise pb rs) = Some (Reject EMismatch).
+  Proof.
+    intros A N. unfold dial_outcome. cbn [dial_setup transport_verdict omap]. unfold Model.accept. rewrite A.
+    cbn [check_dialed]. split; [reflexivity|]. unfold manager_check. cbn [check_dialed].
+    rewrite (pid_eqb_neq _ _ N). reflexivity.
+  Qed.
+
+  (* where no dial path exists there is no outcome: WebRTC, and WebSocket / QUIC without /p2p *)
+  Lemma no_dial_without_expectation t addr_peer dialed ev r :
+    dial_outcome on_curve verify t addr_peer dialed ev = Some r ->
+    t = TTcp \/ (addr_peer <> None /\ (t = TWebSocket \/ t = TQuic)).
+  Proof.
+    unfold dial_outcome. destruct t, addr_peer; cbn [dial_setup]; try discriminate; intros _; auto;
+      right; split; auto; discriminate.
+  Qed.
+
+  (* inbound connections: whoever is reported presented authentic evidence (no expectation) *)
+  Lemma inbound_authentic t ev p :
+    inbound_outcome on_curve verify t ev = Some (Accept p) -> authentic ev p.
+  Proof.
+    unfold inbound_outcome. destruct (transport_verdict on_curve verify t None ev) as [r|] eqn:TV; [|discriminate].
+    cbn [omap]. unfold manager_check. intros [= M]. apply check_dialed_accept in M as [-> _].
+    exact (proj1 (transport_verdict_sound _ _ _ _ TV)).
   Qed.
 
   (* ---------------- binding to the session's static key ---------------- *)
@@ -1145,4 +1316,80 @@ Proof.
   - destruct j as [x|[k h pt|x]]; discriminate E.
   - destruct i as [x|[k h pt|x]]; discriminate E.
   - apply ser_item_inj in E as [-> E]. f_equal. apply IH. exact E.
+Qed.
+
+(* ------------------------------------------------------------------ framing of handshake messages *)
+(* what first_message / second_message write is read back exactly, and the rest of the stream is
+   not touched: read_handshake_message never reads ahead *)
+Lemma read_frame_frame b rest :
+  len b < 65536 -> read_frame (frame b ++ rest) = Some (b, rest).
+Proof.
+  intros L. unfold frame, read_frame. cbn [app].
+  assert (E : len b / 256 * 256 + len b mod 256 = len b).
+  { rewrite N.mul_comm. symmetry. apply N.div_mod. discriminate. }
+  rewrite E. unfold len. rewrite Nat2N.id.
+  assert (Lt : (length (b ++ rest) <? length b)%nat = false).
+  { apply Nat.ltb_ge. rewrite app_length. lia. }
+  clear L. rewrite Lt. rewrite firstn_app, Nat.sub_diag, firstn_all, firstn_O, app_nil_r.
+  rewrite skipn_app, Nat.sub_diag, skipn_all. reflexivity.
+Qed.
+
+(* conversely: a frame that was read is the length prefix, exactly that many bytes, and the rest *)
+Lemma read_frame_exact s b r :
+  bytes_ok s = true -> read_frame s = Some (b, r) ->
+  s = frame b ++ r /\ len b < 65536.
+Proof.
+  destruct s as [|hi [|lo t]]; cbn [read_frame]; try discriminate.
+  intros OK. cbn [bytes_ok forallb] in OK.
+  apply andb_prop in OK as [Hhi OK]. apply andb_prop in OK as [Hlo _].
+  unfold is_byte in Hhi, Hlo.
+  destruct (length t <? N.to_nat (hi * 256 + lo))%nat eqn:Lt; [discriminate|].
+  apply Nat.ltb_ge in Lt. intros [= <- <-].
+  assert (Lb : length (firstn (N.to_nat (hi * 256 + lo)) t) = N.to_nat (hi * 256 + lo)).
+  { apply firstn_length_le. exact Lt. }
+  split; [|unfold len; rewrite Lb, N2Nat.id; lia].
+  unfold frame, len. rewrite Lb, N2Nat.id.
+  assert (D : (hi * 256 + lo) / 256 = hi).
+  { rewrite N.div_add_l by discriminate. rewrite N.div_small by lia. lia. }
+  assert (M : (hi * 256 + lo) mod 256 = lo).
+  { rewrite N.add_comm, N.mod_add by discriminate. apply N.mod_small. lia. }
+  rewrite D, M. cbn [app]. rewrite firstn_skipn. reflexivity.
+Qed.
+
+(* the listener's handshake takes exactly its two frames from the stream; whatever the dialer sent
+   behind message 3 (early data) is left, untouched, for the NoiseSocket *)
+Lemma listener_reads_exact s m1 m3 rest :
+  bytes_ok s = true -> listener_reads s = Some (m1, m3, rest) ->
+  s = frame m1 ++ frame m3 ++ rest.
+Proof.
+  intros OK. unfold listener_reads.
+  destruct (read_frame s) as [[a r1]|] eqn:R1; [|discriminate].
+  destruct (read_frame r1) as [[c r3]|] eqn:R3; [|discriminate].
+  intros [= <- <- <-].
+  destruct (read_frame_exact _ _ _ OK R1) as [E1 _].
+  assert (OK1 : bytes_ok r1 = true).
+  { rewrite E1 in OK. unfold bytes_ok in OK |- *. rewrite forallb_app in OK.
+    apply andb_prop in OK as [_ OK]. exact OK. }
+  destruct (read_frame_exact _ _ _ OK1 R3) as [E3 _].
+  rewrite E1 at 1. rewrite E3 at 1. reflexivity.
+Qed.
+
+Lemma listener_reads_frames m1 m3 rest :
+  len m1 < 65536 -> len m3 < 65536 ->
+  listener_reads (frame m1 ++ frame m3 ++ rest) = Some (m1, m3, rest).
+Proof.
+  intros L1 L3. unfold listener_reads.
+  rewrite (read_frame_frame m1 _ L1), (read_frame_frame m3 _ L3). reflexivity.
+Qed.
+
+(* the identity payload of an honest node has 36 + 2 + 64 + 2 = 104 bytes, so its three messages
+   have 32, 200 and 168 bytes: they fit the write buffers of first_message (256) and
+   second_message (2048) and the u16 length prefix *)
+Lemma honest_payload_length sign idk static :
+  length idk = 32%nat -> length (sign idk (DOMAIN ++ static)) = 64%nat ->
+  length (honest_payload sign idk static) = 104%nat.
+Proof.
+  intros Lk Ls. unfold honest_payload, encode_payload, V.C18.Model.encode_ed25519.
+  repeat (rewrite app_length || cbn [length]). rewrite Ls.
+  cbn. rewrite ?app_length. cbn [length]. lia.
 Qed.
